@@ -42,7 +42,18 @@ variable (G : Glob)
 
 /-- entry of `patch_to_global(p)` -/
 theorem patchToGlobal_e (p g j : Nat) :
-    (G.patchToGlobal p : Mat α).e g j = if j < G.N p ∧ G.globalIdx p j = g then 1 else 0 := rfl
+    (G.patchToGlobal p : Mat α).e g j = if j < G.N p ∧ G.globalIdx p j = g then 1 else 0 := by
+  show (if ((List.range (G.N p)).map (G.globalIdx p))[j]? = some g then (1 : α) else 0) = _
+  by_cases hj : j < G.N p
+  · have : ((List.range (G.N p)).map (G.globalIdx p))[j]? = some (G.globalIdx p j) := by
+      simp [List.getElem?_map, List.getElem?_range hj]
+    rw [this]
+    by_cases hg : G.globalIdx p j = g
+    · simp [hj, hg]
+    · simp [hg]
+  · have : ((List.range (G.N p)).map (G.globalIdx p))[j]? = none := by
+      simp [List.getElem?_eq_none_iff]; omega
+    simp [this, hj]
 
 /-- column `j` of `patch_to_global(p)` is the unit vector `e_{global(p,j)}` -/
 theorem patchToGlobal_col (p j : Nat) (hj : j < G.N p) (g : Nat) :
